@@ -336,6 +336,91 @@ type EShallow struct {            // val at depth 2 hides val at depth 3
 	EVal
 }
 
+// --- embedding of depth 3 and more: "least nested level wins" must not depend
+// on the order in which sibling embedded structs are declared or walked ------
+
+type ENear struct{ Val int16 }
+type ENearTag struct {
+	Val int16 `capnp:"val"`
+}
+type ENearDuo struct{ Duo int64 }
+type ELeafA struct{ Val int16 }
+type ELeafB struct{ Val int16 }
+type EDeepPair struct { // two untagged val fields colliding two levels down
+	ELeafA
+	ELeafB
+}
+type EDeepPairTagged struct { // two tagged val fields colliding two levels down
+	EValTag1
+	EValTag2
+}
+type EDeepPairP struct { // the same through embedded pointers
+	*ELeafA
+	*ELeafB
+}
+type EWrapPair struct{ EDeepPair } // pushes the collision one level further down
+type EWrapOne struct{ ELeafA }     // a single, deeper val (no collision)
+
+type E3NearFirst struct { // unique val at depth 2, declared before the deeper collision
+	ENear
+	EDeepPair
+}
+type E3DeepFirst struct { // same, other declaration order
+	EDeepPair
+	ENear
+}
+type E3NearFirstTagged struct { // deeper collision between tagged fields
+	ENear
+	EDeepPairTagged
+}
+type E3DeepFirstTagged struct {
+	EDeepPairTagged
+	ENear
+}
+type E3NearTagFirst struct { // the shallow one is tagged
+	ENearTag
+	EDeepPair
+}
+type E3DeepFirstNearTag struct {
+	EDeepPair
+	ENearTag
+}
+type E3PtrNearFirst struct { // everything embedded by pointer
+	*ENear
+	*EDeepPairP
+}
+type E3PtrDeepFirst struct {
+	*EDeepPairP
+	*ENear
+}
+type E4NearFirst struct { // collision at depth 4
+	ENear
+	EWrapPair
+}
+type E4DeepFirst struct {
+	EWrapPair
+	ENear
+}
+type E3NearVsSingleDeep struct { // no collision: shallower single hides deeper single
+	ENear
+	EWrapOne
+}
+type E3SingleDeepVsNear struct {
+	EWrapOne
+	ENear
+}
+type E3OnlyDeepCollision struct { // nothing shallower: val is ignored, duo still mapped (VerTwoData)
+	EDeepPair
+	ENearDuo
+}
+type E3MixedTwoData struct { // VerTwoData: val unique shallow, duo unique deep, val collision deep
+	ENear
+	EDeepPair
+	ELevel1d
+}
+type ELevel1d struct{ ELevel2d }
+type ELevel2d struct{ Duo int64 }
+
 // ---------------------------------------------------------------------------
 
 type goMapping struct {
@@ -438,6 +523,21 @@ func init() {
 	add("EOmit", EOmit{}, "VerTwoData", air.VerTwoData_TypeID, sz(16, 0), 1, true)
 	add("EDeep", EDeep{}, "VerTwoData", air.VerTwoData_TypeID, sz(16, 0), 1, true)
 	add("EShallow", EShallow{}, "VerTwoData", air.VerTwoData_TypeID, sz(16, 0), 1, true)
+	for _, e := range []struct {
+		n string
+		v interface{}
+	}{
+		{"E3NearFirst", E3NearFirst{}}, {"E3DeepFirst", E3DeepFirst{}},
+		{"E3NearFirstTagged", E3NearFirstTagged{}}, {"E3DeepFirstTagged", E3DeepFirstTagged{}},
+		{"E3NearTagFirst", E3NearTagFirst{}}, {"E3DeepFirstNearTag", E3DeepFirstNearTag{}},
+		{"E3PtrNearFirst", E3PtrNearFirst{}}, {"E3PtrDeepFirst", E3PtrDeepFirst{}},
+		{"E4NearFirst", E4NearFirst{}}, {"E4DeepFirst", E4DeepFirst{}},
+		{"E3NearVsSingleDeep", E3NearVsSingleDeep{}}, {"E3SingleDeepVsNear", E3SingleDeepVsNear{}},
+	} {
+		add(e.n, e.v, "VerOneData", air.VerOneData_TypeID, sz(8, 0), 1, true)
+	}
+	add("E3OnlyDeepCollision", E3OnlyDeepCollision{}, "VerTwoData", air.VerTwoData_TypeID, sz(16, 0), 1, true)
+	add("E3MixedTwoData", E3MixedTwoData{}, "VerTwoData", air.VerTwoData_TypeID, sz(16, 0), 1, true)
 	add("GA320", GA320{}, "A320", air.A320_TypeID, sz(0, 1), 1, true)
 	add("GF16", GF16{}, "F16", air.F16_TypeID, sz(0, 1), 1, true)
 }
